@@ -252,7 +252,7 @@ Definition w_step (st : hwriter) (e : env) (o : wop) : hwriter * env * wobs :=
   | WWriteBinary bs extra => h_writebinary st e bs extra
   | WFill k off data =>
     match h_fill st (ew e) k off data with
-    | Some (st', w') => (st', mkE w' (eal e) (eadv e) (eev e), mkO E_NONE (wlen st') None None)
+    | Some (st', w') => (st', mkE w' (eal e) (eadv e) (epool e) (eev e), mkO E_NONE (wlen st') None None)
     | None => (st, e, mkO E_INVALID (wlen st) None None)
     end
   | WFlush => h_flush st e
@@ -260,14 +260,14 @@ Definition w_step (st : hwriter) (e : env) (o : wop) : hwriter * env * wobs :=
   end.
 
 Inductive wstep : Type :=
-| WOp (o : wop) (al : list achoice) (adv : list (list costep))
+| WOp (o : wop) (al : list achoice) (adv padv : list (list costep))
 | WCo (l : list costep).
 
 Definition wrun_step (x : hwriter * world * list event) (s : wstep) : hwriter * world * list event * option wobs :=
   let '(st, w, tr) := x in
   match s with
-  | WOp o al adv =>
-    let '(st', e', out) := w_step st (mkE w al adv tr) o in
+  | WOp o al adv padv =>
+    let '(st', e', out) := w_step st (mkE w al adv padv tr) o in
     (st', ew e', eev e', Some out)
   | WCo l => (st, co_run w l, tr, None)
   end.
